@@ -288,6 +288,42 @@ def big_tree(rnd):
     return root
 
 
+# bindings the XML world knows by heart: a codec has no business treating any (prefix, URI) pair as special
+WELL_KNOWN = [("xml", "http://www.w3.org/XML/1998/namespace"), ("xml", "urn:not-the-xml-namespace"), ("x", "http://www.w3.org/XML/1998/namespace"),
+              ("xmlns", "http://www.w3.org/2000/xmlns/"), ("xsi", "http://www.w3.org/2001/XMLSchema-instance"), ("xs", "http://www.w3.org/2001/XMLSchema"),
+              ("eml", "https://eml.ecoinformatics.org/eml-2.2.0"), ("eml", "eml://ecoinformatics.org/eml-2.1.1"), ("stmml", "http://www.xml-cml.org/schema/stmml-1.2"),
+              ("", "urn:empty-prefix"), ("p", ""), ("None", "urn:n"), ("null", "urn:n"), ("nsmap", "nsmap"), ("id", "id")]
+
+
+def w_bindings(idx):
+    evs = []
+    conv = converter()
+    for i in idx:
+        pfx, uri = WELL_KNOWN[i // 3]
+        how = ["add_namespace", "nsmap setter, one map object per node", "nsmap setter, one shared map object"][i % 3]
+        Node.store.clear()
+        root = Node("r")
+        a, b = Node("a", content="t"), Node("b")
+        g = Node("g", content="u")
+        root.add_child(a)
+        root.add_child(b)
+        b.add_child(g)
+        nodes = [root, a, b, g]
+        if i % 3 == 0:
+            root.add_namespace("q", "urn:q")
+            root.add_namespace(pfx, uri)
+        else:
+            shared = {"q": "urn:q", pfx: uri}
+            for n in nodes:
+                n.nsmap = shared if i % 3 == 2 else dict(shared)
+        g.prefix = pfx
+        a.add_extras("{" + uri + "}k", "v")
+        a.add_attribute(pfx + ":k", "v")
+        at = Atoms()
+        evs += roundtrip_events(root, at, conv, {"binding": [pfx, uri], "established_by": how})
+    return evs
+
+
 def w_random(seeds):
     import sys
     sys.setrecursionlimit(10000)          # results with deeply nested documents are pickled back to the parent
@@ -323,6 +359,7 @@ def run(rep, tier, seed):
     rep.notes["small_trees_replayed"] = nS
     ntr = 150 if tier == "quick" else 4000
     evs = [e for chunk in parallel(w_random, [seed * 15485863 + i for i in range(ntr)]) for e in chunk]
+    evs += [e for chunk in parallel(w_bindings, range(3 * len(WELL_KNOWN))) for e in chunk]
     strip = lambda e: {k: v for k, v in e.items() if k != "desc"}  # noqa: E731
     rejects, rr = judge_traces([strip(e) for e in evs], PID, module="TraceCodec", cfg="TraceValidate.cfg", label="codec", timeout=3000)
     rep.cov["states"] += rr.distinct or 0
